@@ -63,7 +63,7 @@ func c19Fields(typ string) []c19Field {
 		return append(common, c19Field{"1", "ok"}, c19Field{"0", "ok"}, c19Field{"t", "ok"}, c19Field{"f", "ok"}, c19Field{"TRUE", "ok"}, c19Field{"false", "ok"}, c19Field{"x", "bad"}, c19Field{"", "bad"},
 			c19Field{"2", "bad"}, c19Field{"-1", "bad"}, c19Field{"00", "bad"}, c19Field{"yes", "bad"})
 	}
-	return append(common, c19Field{"text", "ok"}, c19Field{"", "ok"}, c19Field{"has SEP inside", "ok"}, c19Field{"it's; \"quoted\"", "ok"}, c19Field{"1", "ok"}, c19Field{"#tag", "ok"},
+	return append(common, c19Field{"text", "ok"}, c19Field{"", "ok"}, c19Field{"has SEP inside", "ok"}, c19Field{"it's; \"quoted\"", "ok"}, c19Field{"1", "ok"}, c19Field{"#tag", "ok"}, c19Field{"José ñ 日本🙂", "ok"},
 		c19Field{strings.Repeat("L", 500), "bad"}) // converts fine but the row exceeds the 400-byte limit: the INSERT must refuse it
 }
 
